@@ -3,6 +3,7 @@ package main
 // Calls: by contract, by inlining, by extern model; call logs; frames (modifies).
 
 import (
+	"sort"
 	"fmt"
 	"go/types"
 	"strings"
@@ -745,6 +746,50 @@ func (x *Exec) havocLocs(st *State, fr *Frame, clauses []*Clause, _ *Env) {
 	e.oldWM = x.loopEntryWM
 	for _, l := range x.locsOf(e, clauses) {
 		x.havocLoc(st, l)
+		if l.log != "" {
+			x.havocDirectLog(st, l.log)
+		}
+	}
+}
+
+// havocDirectLog: a loop body makes direct calls of its own, so cutting the loop also havocs the
+// function's direct-call log of key (counter grows, earlier entries are kept). Callee contracts never do.
+func (x *Exec) havocDirectLog(st *State, log string) {
+	key := sanitize(log)
+	oldD := st.comp("D!"+key, SI)
+	newD := st.havocComp("D!"+key, SI)
+	st.assume(Ge(newD, oldD))
+	names := map[string]string{}
+	for name, t := range st.heap {
+		if strings.HasPrefix(name, "DA!"+key+"!") || strings.HasPrefix(name, "DR!"+key+"!") {
+			names[name] = t.Sort
+		}
+	}
+	if sig := x.eng.callSigs[log]; sig != nil {
+		for j, t := range sig.types {
+			s := sortOf(t)
+			if s == "" {
+				s = SI
+			}
+			names[fmt.Sprintf("DA!%s!%d", key, j)] = ArrSort(SI, s)
+		}
+	}
+	for j, t := range x.eng.callRets[log] {
+		if s := sortOf(t); s != "" {
+			names[fmt.Sprintf("DR!%s!%d", key, j)] = ArrSort(SI, s)
+		}
+	}
+	var ordered []string
+	for name := range names {
+		ordered = append(ordered, name)
+	}
+	sort.Strings(ordered)
+	for _, name := range ordered {
+		cur := st.comp(name, names[name])
+		n := st.havocComp(name, names[name])
+		x.counter++
+		i := Term{fmt.Sprintf("q.i!%d", x.counter), SI}
+		st.assume(Forall([]Term{i}, Imp(Lt(i, oldD), Eq(Sel(n, i), Sel(cur, i)))))
 	}
 }
 
